@@ -11,6 +11,8 @@
 (*   bseq   : a whole builder call sequence new(..).op1...opn.build() with *)
 (*            arbitrary arguments, its outcome and the parse of its printed*)
 (*            form - C09 through Apply/Track/Expected                      *)
+(*   hparse / hbuild : calls recorded by the guarded hooks inside the      *)
+(*            library while the repository's own test suite runs           *)
 (*   opaque : an input beyond TLC's evaluation cap (64 KiB - 1 MiB): only  *)
 (*            the kind of outcome is constrained (C06)                     *)
 (* The table `lc` (when present) carries char::to_lowercase of the         *)
@@ -88,6 +90,29 @@ CombProps(e) ==
               /\ (okv => e.joined.some /\ e.joined.x = JoinCombined(exp.v))
               /\ ((okv /\ CombinedInvertible(exp.v)) => (e.inverse.ns = exp.v.ns /\ e.inverse.name = exp.v.name)),
       C04 |-> (okv => Valid(e.out.v))]
+\* events written by the guarded hooks inside the library (--cfg purl_verif) while the repository's own tests run:
+\* hparse = one call of from_str, hbuild = one call of build().  The hook cannot name the error class of a generic
+\* error type, so only acceptance / refusal is recorded for errors.  sh = "other" is a user-written shape of a test.
+HParseProps(e) ==
+  LET out == e.out IN
+  IF e.sh = "other" THEN [C04 |-> (out.ok => ValidParts(out.v))] ELSE
+  LET jd == Judge(e.s, ShapeOf(e), LcTab(e)) IN
+  [C06 |-> "display_panic" \notin DOMAIN out,
+   C02 |-> (jd.j = "acc" => (out.ok /\ out.v = jd.v /\ out.str = jd.str)),
+   C05 |-> (jd.j \in {"err", "rej"} => ~out.ok),
+   C04 |-> (out.ok => Valid(out.v)),
+   C03 |-> (out.ok => (out.str = Render(out.v) /\ PrintableAscii(out.str) /\ QSorted(out.v.quals))),
+   C07 |-> (out.ok => (NoBadSeg(out.v.ns, FALSE) /\ NoBadSeg(out.v.sub, TRUE))),
+   C01 |-> (out.ok => LET r == ParseF(out.str, ShapeOf(e), LcTab(e)) IN r.ok /\ r.v = out.v)]
+HBuildProps(e) ==
+  LET out == e.out IN
+  IF e.sh = "other" THEN [C04 |-> (out.ok => ValidParts(out.v))] ELSE
+  LET exp == BuildF(ShapeOf(e), e.st, e.parts, LcTab(e)) IN
+  [C06 |-> "display_panic" \notin DOMAIN out,
+   C09 |-> (out.ok <=> exp.ok) /\ (out.ok => out.v = exp.v),
+   C04 |-> (out.ok => Valid(out.v)),
+   C03 |-> (out.ok => (out.str = Render(out.v) /\ PrintableAscii(out.str))),
+   C10 |-> (out.ok => Rebuild(ShapeOf(e), out.v, LcTab(e)) = [ok |-> TRUE, v |-> out.v])]
 \* a qualifier collection content the specification did not predict: is it at least a well-formed collection?
 QvecProps(e) ==
   LET ok == /\ QSorted(e.post)
@@ -116,6 +141,8 @@ Props(e) == CASE e.ev = "value" -> ValueProps(e)
               [] e.ev = "pair" -> PairProps(e)
               [] e.ev = "combinv" -> CombInvProps(e)
               [] e.ev = "qvec" -> QvecProps(e)
+              [] e.ev = "hparse" -> HParseProps(e)
+              [] e.ev = "hbuild" -> HBuildProps(e)
               [] OTHER -> [TOOL |-> FALSE]
 FailedProps(e) == LET p == Props(e) IN {k \in DOMAIN p : ~p[k]}
 EventOk(e) == FailedProps(e) = {}
